@@ -2,6 +2,7 @@ from typing import Dict, List
 
 import numpy as np
 
+from classy_blocks.construct.edges import Project
 from classy_blocks.construct.flat.face import Face
 from classy_blocks.construct.flat.sketches.disk import QuarterDisk
 from classy_blocks.construct.operations.loft import Loft
@@ -186,6 +187,20 @@ class EighthSphere(Shape):
     @property
     def center(self):
         return self.center_point
+
+    def copy(self):
+        """The geometry label is unique to each instance: the lofts of a copy project to the copy's own sphere"""
+        new = super().copy()
+        old_label, new_label = self.geometry_label, new.geometry_label
+
+        for loft in new.lofts:
+            loft.side_projects = [new_label if label == old_label else label for label in loft.side_projects]
+
+            for edge in [*loft.bottom_face.edges, *loft.top_face.edges, *loft.side_edges]:
+                if isinstance(edge, Project):
+                    edge.label = [new_label if label == old_label else label for label in edge.label]
+
+        return new
 
     @property
     def geometry(self):
